@@ -27,8 +27,8 @@ inductive Err where
   | noData
   /-- a length word ≥ 2^31 (negative as `>i`): `read` of a negative count is not modelled -/
   | negLen
-  /-- model artefact: the fuel given to a loop ran out (never happens with the fuel the entry points pass;
-      see the adequacy lemmas in `Proofs/Stream.lean`) -/
+  /-- model artefact: the fuel given to a loop ran out (never happens with the fuel the entry points pass:
+      `C09_fuel_adequate`, `Proofs/StreamFuel.lean`) -/
   | fuel
 deriving DecidableEq, Repr
 
@@ -318,10 +318,6 @@ def unpackFrame (body : Bytes) : Except Err (Bytes × Bytes) :=
     | .ok d => match stream2bytearray d.2 with
       | .error e => .error e
       | .ok buf => .ok (d.1, buf)
-
-/-- the same as a read-only decoder -/
-def frameDec (fuel : Nat) : Dec (Bytes × Bytes) :=
-  .read 4 fun h => .read (be32 h % 16777216) fun dmr => (dechunkDec fuel []).bind fun buf => .ret (dmr, buf)
 
 /-- wire form: one chunk -/
 def encChunk (flags : Nat) (c : Bytes) : Bytes := be32enc (flags * 16777216 + c.length) ++ c
